@@ -393,15 +393,17 @@ def traverse_bf_ltr_ttb(root: NodeBase, *filters: Filter) -> Iterator[NodeBase]:
 
 def traverse_df_ltr_btt(root: NodeBase, *filters: Filter) -> Iterator[NodeBase]:
     def yield_children(node):
-        for child in tuple(node.iterate_children(*filters)):
+        for child in tuple(node.iterate_children()):
             yield from yield_children(child)
-        yield node
+        if all(f(node) for f in filters):
+            yield node
 
     yield from yield_children(root)
 
 
 def traverse_df_ltr_ttb(root: NodeBase, *filters: Filter) -> Iterator[NodeBase]:
-    yield root
+    if all(f(root) for f in filters):
+        yield root
     yield from root.iterate_descendants(*filters)
 
 
